@@ -2025,3 +2025,53 @@ def combination_against_combination(ctx):
             (f"typeorder({bad_incl[0]}, {bad_incl[1]}) is {bad_incl[2]}, inclusion says {bad_incl[3]}: a method on the wider {c.name.lower()} is preferred over (or silently tied with) the method on the narrower one" if bad_incl else ""),
         )
     ctx.require(n >= 2, "expected the order hooks of the union and the intersection")
+
+
+# ---------------------------------------------------------------------------------------- typing.Any counts as object
+def any_counts_as_object(ctx):
+    """The subtype test and the order function, interpreted on real classes, generic aliases and `typing.Any`:
+    wherever `Any` stands - as the type itself, inside `type[...]`, as an argument of a generic - the answer is the one
+    given for `object` in its place."""
+    import typing
+
+    repo = ctx.repo
+    sc, to, en = A.subclasscheck_fn(repo), A.typeorder_fn(repo), A.order_enum(repo)
+    ctx.touch(sc, to)
+    order_ns = Record(merge=HostFn(lambda orders: _ref_merge(list(orders))), **_ORD)
+    funcs = {n: g.node for n, g in sc.module.funcs.items() if g.parent is None and g.cls is None}
+    genv = {en.name: order_ns, "NotImplemented": NotImplemented, "get_origin": typing.get_origin, "get_args": typing.get_args, "UnionTypes": (), "typing": typing, "Any": typing.Any, "TypeError": TypeError}
+    hi = HostInterp({}, Record(), {}, globals_env=genv, classes={}, functions=funcs)
+    hi.host_types = hi.host_types + (_Ord,)
+
+    def run(f, a, b):
+        try:
+            r = hi.call_function(f.node, [a, b], {}, {})
+        except Raised as e:
+            return f"raises {e.what}"
+        except TypeError as e:
+            return f"raises TypeError ({e})"
+        return getattr(r, "name", r)
+
+    A_ = typing.Any
+    pairs = [
+        ("the type itself", int, A_, object),
+        ("inside type[...]", type[int], type[A_], type[object]),
+        ("an argument of a generic", list[int], list[A_], list[object]),
+        ("a nested argument", type[dict[str, int]], type[dict[str, A_]], type[dict[str, object]]),
+    ]
+    problems = []
+    for what, t, with_any, with_object in pairs:
+        for f, label in ((sc, "subtype test"), (to, "order")):
+            try:
+                got, ref = run(f, t, with_any), run(f, t, with_object)
+            except AnalysisError as e:
+                raise AnalysisError(f"{f.key}: not interpretable on {t!r} / {with_any!r}: {e}")
+            if got != ref:
+                problems.append(f"{label} of {t!r} against {with_any!r} ({what}) answers {got}, against {with_object!r} it answers {ref}")
+    ctx.ob(
+        f"{sc.key}:any-is-object",
+        sc.loc(),
+        "typing.Any is treated as object wherever it stands: alone, inside type[...], as a (nested) argument of a generic (subtype test and order function interpreted on 4 x 2 pairs)",
+        not problems,
+        "; ".join(problems[:2]) + ": a method annotated type[Any] / type[list[Any]] is never applicable, although typing.Any counts as object",
+    )
